@@ -1,7 +1,7 @@
 (* C13 -- pinned statements only (generated once by tools/pin.py from `Check`, then fixed); proofs in EbrP.v *)
 From Coq Require Import ZArith List Bool Lia Arith.
 Import ListNotations.
-Require Import Params Ebr EbrP.
+Require Import Params Ebr EbrP EbrNoStuckP.
 Local Open Scope Z_scope.
 
 Theorem C13_expire_side_condition :
@@ -69,4 +69,33 @@ Theorem C13_grace :
        In (q, n) (wit d) -> nth_error (threads s) q = Some lq -> ~ (incs lq = true /\ serial lq = n).
 Proof. exact EbrP.C13_grace. Qed.
 Print Assumptions C13_grace.
+
+
+(* ---- the model's defensive guards (try_advance / repin_without_collect only by a validated participant,
+   scanned participants exist) never fire on reachable states of well-formed programs (EbrNoStuckP.v) *)
+Theorem C13_no_guard_fires :
+  forall (s : state) (t : nat) (l : local),
+       NS s ->
+       getl s t = Some l -> frames l <> [] -> exists (s' : state) (o : list Z), micro s t = Some (s', o).
+Proof. exact EbrNoStuckP.micro_total. Qed.
+Print Assumptions C13_no_guard_fires.
+
+Theorem C13_no_stuck_invariant :
+  forall (s : state) (t : nat) (s' : state) (o : list Z), NS s -> micro s t = Some (s', o) -> NS s'.
+Proof. exact EbrNoStuckP.micro_ns. Qed.
+Print Assumptions C13_no_stuck_invariant.
+
+Theorem C13_no_stuck_initial :
+  forall (c : nat) (g0 : Z) (progs : list (list cmd)),
+       forallb prog_ok progs = true -> NS (init_state c g0 progs).
+Proof. exact EbrNoStuckP.init_ns. Qed.
+Print Assumptions C13_no_stuck_initial.
+
+Theorem C13_no_guard_fires_step :
+  forall (c : nat) (g0 : Z) (progs : list (list cmd)) (sched : list nat) (t : nat) (l : local),
+       forallb prog_ok progs = true ->
+       getl (srun (init_state c g0 progs) sched) t = Some l ->
+       frames l <> [] -> micro (srun (init_state c g0 progs) sched) t <> None.
+Proof. exact EbrNoStuckP.no_guard_fires_step. Qed.
+Print Assumptions C13_no_guard_fires_step.
 
